@@ -19,7 +19,7 @@ from ..universe import recs_from_json, recs_to_json, strings
 
 SIGMA_P = ["", "a", "A", "x"]
 SIGMA_U = ["", "x", "x:", "a:", "a:x", "xy", "X"]
-DELIMS = [":", "/"]
+DELIMS = [":", "/", "::"]
 
 
 def record_pool():
@@ -161,7 +161,20 @@ def run_hist_case(check_config, case, ctx=None):
     conv = Converter([to_record(r) for r in init])
     model = Model(list(init), ":")
     nmerge = 0
+    from ..impl import observe
+
+    Q = c05.Q + ["a:", ":a", "b:1", "c:1", "d:1", "A:1"]
     for op in case["ops"]:
+        # observe on the live object before every mutation (plants whatever the code under test may memoise),
+        # in every reporting mode
+        observe(conv, Q, c05.QUERY_PREFIXES)
+        for q in Q[:12]:
+            for kw in ({"passthrough": True}, {"strict": True}):
+                for f in (conv.compress, conv.expand, conv.standardize_uri, conv.standardize_curie):
+                    try:
+                        f(q, **kw)
+                    except ValueError:
+                        pass
         exc = c05.apply_op(conv, op)
         outcome, _ = model.add_record(c05.rec_from_json(op["rec"]), case_sensitive=op["cs"], merge=op["merge"])
         if (exc is not None) != (outcome == "rejected"):
@@ -176,7 +189,6 @@ def run_hist_case(check_config, case, ctx=None):
         if nmerge:
             ctx.count("incremental_states_after_merge")
     where = f"converter {case['init']} after {[(o['via'], o['rec'], o['cs'], o['merge']) for o in case['ops']]}"
-    Q = c05.Q + ["a:", ":a", "b:1", "c:1", "d:1", "A:1"]
     check_config(conv, model, Q, fails, where, None)
     if ctx is not None and not fails:
         ctx.count("validated")
